@@ -86,6 +86,9 @@ def expected_records(it: Interner, sp: dict) -> dict:
     address family) -- not read back from the library."""
     a4, a6 = ADDR_SETS[sp['addrs']]
     txt = bytes.fromhex(sp['txt'])
+    if sp['host'] is None:
+        # no host name given: the instance name of the service -- the one it ends up with -- serves as its host name
+        sp = dict(sp, host=sp['name'])
     d: Dict[str, Any] = {
         'sid': sp['sid'], 'name': it.nb(sp['name']), 'type': it.nb(sp['type']), 'host': it.nb(sp['host']),
         'ptr': it.rid(sp['type'], wire.T_PTR, 1, low(sp['name'])),
@@ -792,6 +795,8 @@ def gen_c09(rng: random.Random, sid: str, thorough: bool = False) -> dict:
     """Registration with probing: conflicting pointer records arrive at grid offsets around the three probe instants."""
     svcs = gen_services(rng)
     sp = svcs[0]
+    if rng.random() < 0.2:
+        sp = dict(sp, host=None)          # the host name defaults to the instance name
     others = svcs[1:2]
     steps: List[dict] = []
     t = 0
@@ -850,7 +855,10 @@ def gen_c09(rng: random.Random, sid: str, thorough: bool = False) -> dict:
         end += 400
         steps += [{'op': 'at', 't': end}, {'op': 'conflict', 'svc': sp, 'k': 0, 'exact': True, 'ttl': 4500}]
         end += rng.choice([700, 1100, 2000])
-        steps += [{'op': 'at', 't': end}, {'op': 'reg_bg', 'svc': sp, 'coop': False, 'rename': True, 'exact': [0], 'same_object': rng.random() < 0.7}]
+        steps += [{'op': 'at', 't': end}, {'op': 'reg_bg', 'svc': sp, 'coop': False, 'rename': True, 'exact': [0],
+                                          # (an object whose host name was defaulted at its first registration keeps that name: with a
+                                          #  defaulted host name the application registers a fresh description)
+                                          'same_object': rng.random() < 0.7 and sp['host'] is not None}]
         end += 2500
         steps.append({'op': 'at', 't': end})
         for k in range(0, 2):
